@@ -44,7 +44,7 @@ func c18Cases(tier string, seed int64) []core.Case {
 		}
 		// the same batteries against a server whose Root is configured in a spelling that is not the cleaned one
 		// (-root /srv/export/ from shell completion, a /./ or // inside it)
-		for _, spelling := range []string{"trailing-slash", "dot-element", "double-slash", "narrowed", "moved-from-sibling"} {
+		for _, spelling := range []string{"trailing-slash", "dot-element", "double-slash", "narrowed", "moved-from-sibling", "relative-dot", "relative-name"} {
 			for _, family := range []string{"walk", "mixed"} {
 				dotu, family, spelling := dotu, family, spelling
 				if tier != "thorough" && ((family == "mixed") != dotu) {
@@ -202,6 +202,27 @@ func c18Run(ctx *core.Ctx, family string, dotu bool, thorough bool, spelling str
 		exported = filepath.Dir(sb.root) + "/./" + filepath.Base(sb.root)
 	case "double-slash":
 		exported = filepath.Dir(sb.root) + "//" + filepath.Base(sb.root)
+	}
+	switch spelling {
+	case "relative-dot", "relative-name":
+		// the server is started inside (or next to) the directory it exports and told a relative path: the process's
+		// working directory is part of what the name means (one case at a time per worker process)
+		if old, err := os.Getwd(); err == nil {
+			defer os.Chdir(old)
+		}
+		if spelling == "relative-dot" {
+			if os.Chdir(sb.root) != nil {
+				res.Inconclusive = "c18: chdir failed"
+				return res
+			}
+			exported = "."
+		} else {
+			if os.Chdir(filepath.Dir(sb.root)) != nil {
+				res.Inconclusive = "c18: chdir failed"
+				return res
+			}
+			exported = filepath.Base(sb.root)
+		}
 	}
 	switch spelling {
 	case "narrowed":
